@@ -294,7 +294,8 @@ def process(ctx, rng, exe, h, lines, samples, state):
             if not ok and "garbage" in m:
                 # value of a FastRational built from an unparsable string: whatever the recycled mpq_t held
                 state["n_garbage"] += 1
-                ok = re.sub(r"Int \S+ ", "Int * ", m) == re.sub(r"Int \S+ ", "Int * ", i)
+                ok = (re.sub(r"Int garbage [^|]*", "Int * ", m) == re.sub(r"Int \S+ [^|]*", "Int * ", i) if "garbage |" in m + " |" and "Int garbage garbage" in m
+                      else re.sub(r"Int \S+ ", "Int * ", m) == re.sub(r"Int \S+ ", "Int * ", i))
             if not ok and "nonnum" in m and "CRASH" in i and arg in ("/", "-", "+", "*"):
                 ok = m == i.replace("CRASH", "nonnum")     # Logic::mkConst on an operator name: see judge_api
             if not ok:
